@@ -28,6 +28,7 @@ CONSTANTS MaxN,     \* the user's generator yields n \in 0..MaxN items before it
 
 VARIABLES n,          \* items the user's generator would yield (fixed per behaviour)
           raiseAt,    \* 0: never; k > 0: the generator raises instead of yielding item k (fixed per behaviour)
+          cleanupRaises, \* the generator's cleanup code itself raises when it is closed while suspended (fixed per behaviour)
           q,          \* queue content: <<>> or <<item>> ; item k in 1..n, 0 stands for None
           stop,       \* should_stop
           rpc,        \* relay: "none" (not submitted) | "queued" | "atYield" | "atExhausted" | "atRaise" | "atPut" | "atPutNone" | "atClose" | "done"
@@ -41,14 +42,14 @@ VARIABLES n,          \* items the user's generator would yield (fixed per behav
           delivered,  \* items handed to the server, in order
           pings,      \* ping comments handed to the server (bounded by the state constraint)
           closing     \* the finally block was entered through close()
-vars == <<n, raiseAt, q, stop, rpc, held, produced, gen, genClosed, fut, cpc, got, delivered, pings, closing>>
+vars == <<n, raiseAt, cleanupRaises, q, stop, rpc, held, produced, gen, genClosed, fut, cpc, got, delivered, pings, closing>>
 
 \* how the server's last call ended: "open" (iterable still usable / call in progress), "exhausted"
 \* (StopIteration), "closed" (close() returned), "raised" (the producer's own exception came out)
 outcome == IF cpc # "ret" THEN "open"
            ELSE IF fut = "failed" THEN "raised" ELSE IF closing THEN "closed" ELSE "exhausted"
 
-Init == /\ n \in 0..MaxN /\ raiseAt \in 0..n
+Init == /\ n \in 0..MaxN /\ raiseAt \in 0..n /\ cleanupRaises \in BOOLEAN
         /\ q = <<>> /\ stop = FALSE /\ rpc = "none" /\ held = 0 /\ produced = 0
         /\ gen = "unstarted" /\ genClosed = 0 /\ fut = "none"
         /\ cpc = "unstarted" /\ got = FALSE /\ delivered = <<>> /\ pings = 0 /\ closing = FALSE
@@ -62,47 +63,47 @@ GenAdvance(p) ==   \* p = number already produced
   ELSE IF p < n THEN "atYield" ELSE "atExhausted"
 
 \* the pool thread starts push(): i = iter(iterable); `while not should_stop` ; next(i)
-RelayStart == /\ UNCHANGED <<n, raiseAt>> /\ rpc = "queued" /\ fut = "pending"
+RelayStart == /\ UNCHANGED <<n, raiseAt, cleanupRaises>> /\ rpc = "queued" /\ fut = "pending"
               /\ fut' = "running"
               /\ IF stop THEN rpc' = "atPutNone" /\ UNCHANGED gen
                          ELSE rpc' = GenAdvance(produced) /\ gen' = "suspended"
               /\ UNCHANGED <<q, stop, held, produced, genClosed, cpc, got, delivered, pings, closing>>
 
 \* the generator yields its next item; the relay arrives at q.put(item)
-RelayYield == /\ UNCHANGED <<n, raiseAt>> /\ rpc = "atYield"
+RelayYield == /\ UNCHANGED <<n, raiseAt, cleanupRaises>> /\ rpc = "atYield"
               /\ produced' = produced + 1 /\ held' = produced + 1 /\ rpc' = "atPut"
               /\ UNCHANGED <<q, stop, gen, genClosed, fut, cpc, got, delivered, pings, closing>>
 
 \* q.put(item) succeeds (blocks while the slot is taken); then the loop test and next(i)
-RelayPut == /\ UNCHANGED <<n, raiseAt>> /\ rpc = "atPut" /\ q = <<>>
+RelayPut == /\ UNCHANGED <<n, raiseAt, cleanupRaises>> /\ rpc = "atPut" /\ q = <<>>
             /\ q' = <<held>>
             /\ rpc' = IF stop THEN "atPutNone" ELSE GenAdvance(produced)
             /\ UNCHANGED <<stop, held, produced, gen, genClosed, fut, cpc, got, delivered, pings, closing>>
 
 \* StopIteration: the generator's own finally has run; should_stop = True; on to the final put
-RelayExhausted == /\ UNCHANGED <<n, raiseAt>> /\ rpc = "atExhausted"
+RelayExhausted == /\ UNCHANGED <<n, raiseAt, cleanupRaises>> /\ rpc = "atExhausted"
                   /\ gen' = "finished" /\ genClosed' = genClosed + 1
                   /\ stop' = TRUE /\ rpc' = "atPutNone"
                   /\ UNCHANGED <<q, held, produced, fut, cpc, got, delivered, pings, closing>>
 
 \* the generator raises: its finally has run, the exception leaves the loop, push()'s finally starts
-RelayRaise == /\ UNCHANGED <<n, raiseAt>> /\ rpc = "atRaise"
+RelayRaise == /\ UNCHANGED <<n, raiseAt, cleanupRaises>> /\ rpc = "atRaise"
               /\ gen' = "finished" /\ genClosed' = genClosed + 1
               /\ rpc' = "atPutNone" /\ fut' = "failed"   \* (recorded now, visible once the thread is done)
               /\ UNCHANGED <<q, stop, held, produced, cpc, got, delivered, pings, closing>>
 
 \* finally: q.put(None) (blocking) ...
-RelayPutNone == /\ UNCHANGED <<n, raiseAt>> /\ rpc = "atPutNone" /\ q = <<>>
+RelayPutNone == /\ UNCHANGED <<n, raiseAt, cleanupRaises>> /\ rpc = "atPutNone" /\ q = <<>>
                 /\ q' = <<0>>
                 /\ rpc' = "atClose"
                 /\ UNCHANGED <<stop, held, produced, gen, genClosed, fut, cpc, got, delivered, pings, closing>>
 
 \* ... then g.close() - which runs the generator's cleanup if it is still suspended - and the thread ends
-RelayClose == /\ UNCHANGED <<n, raiseAt>> /\ rpc = "atClose"
+RelayClose == /\ UNCHANGED <<n, raiseAt, cleanupRaises>> /\ rpc = "atClose"
               /\ rpc' = "done"
               /\ IF gen = "suspended" THEN gen' = "finished" /\ genClosed' = genClosed + 1
                                       ELSE UNCHANGED <<gen, genClosed>>
-              /\ fut' = IF fut = "failed" THEN "failed" ELSE "done"
+              /\ fut' = IF fut = "failed" \/ (gen = "suspended" /\ cleanupRaises) THEN "failed" ELSE "done"
               /\ UNCHANGED <<q, stop, held, produced, cpc, got, delivered, pings, closing>>
 
 ThreadOver == rpc = "done"     \* push_future.done() for a started thread
@@ -125,18 +126,18 @@ Finally(gotNow) ==
                       /\ q' = <<>> /\ cpc' = JoinOrRet /\ got' = gotNow
 
 \* first next(): start_response, submit push(), enter the loop -> q.get(timeout)
-SrvFirstNext == /\ UNCHANGED <<n, raiseAt>> /\ cpc = "unstarted"
+SrvFirstNext == /\ UNCHANGED <<n, raiseAt, cleanupRaises>> /\ cpc = "unstarted"
                 /\ rpc' = "queued" /\ fut' = "pending" /\ cpc' = "get"
                 /\ UNCHANGED <<q, stop, held, produced, gen, genClosed, got, delivered, pings, closing>>
 
 \* next() on the suspended generator: loop test, then q.get(timeout)
-SrvNext == /\ UNCHANGED <<n, raiseAt>> /\ cpc = "yielded"
+SrvNext == /\ UNCHANGED <<n, raiseAt, cleanupRaises>> /\ cpc = "yielded"
            /\ IF ThreadOver /\ q = <<>>
                 THEN Finally(got) /\ UNCHANGED <<held, produced, gen, genClosed, delivered, pings, closing>>
                 ELSE cpc' = "get" /\ UNCHANGED <<q, stop, rpc, held, produced, gen, genClosed, fut, got, delivered, pings, closing>>
 
 \* q.get(timeout) returns an item
-ConsGet == /\ UNCHANGED <<n, raiseAt>> /\ cpc = "get" /\ q # <<>>
+ConsGet == /\ UNCHANGED <<n, raiseAt, cleanupRaises>> /\ cpc = "get" /\ q # <<>>
            /\ IF q[1] = 0
                 THEN /\ q' = <<>> /\ stop' = TRUE /\ got' = TRUE /\ cpc' = JoinOrRet    \* break -> finally; cancel() fails; no drain
                      /\ UNCHANGED <<delivered, rpc, fut>>
@@ -145,12 +146,12 @@ ConsGet == /\ UNCHANGED <<n, raiseAt>> /\ cpc = "get" /\ q # <<>>
            /\ UNCHANGED <<held, produced, gen, genClosed, pings, closing>>
 
 \* q.get(timeout) times out: a ping comment is yielded
-ConsTimeout == /\ UNCHANGED <<n, raiseAt>> /\ cpc = "get" /\ q = <<>>
+ConsTimeout == /\ UNCHANGED <<n, raiseAt, cleanupRaises>> /\ cpc = "get" /\ q = <<>>
                /\ pings' = pings + 1 /\ cpc' = "yielded"
                /\ UNCHANGED <<q, stop, rpc, held, produced, gen, genClosed, fut, got, delivered, closing>>
 
 \* close() on the response iterable
-SrvClose == /\ UNCHANGED <<n, raiseAt>> /\ cpc \in {"unstarted", "yielded"}
+SrvClose == /\ UNCHANGED <<n, raiseAt, cleanupRaises>> /\ cpc \in {"unstarted", "yielded"}
             /\ closing' = TRUE
             /\ IF cpc = "unstarted"
                  THEN /\ cpc' = "ret"
@@ -159,13 +160,13 @@ SrvClose == /\ UNCHANGED <<n, raiseAt>> /\ cpc \in {"unstarted", "yielded"}
             /\ UNCHANGED <<held, produced, gen, genClosed, delivered, pings>>
 
 \* repaired finally: `while not got_sentinel: got_sentinel = q.get() is None`
-ConsDrain == /\ UNCHANGED <<n, raiseAt>> /\ cpc = "drain" /\ q # <<>>
+ConsDrain == /\ UNCHANGED <<n, raiseAt, cleanupRaises>> /\ cpc = "drain" /\ q # <<>>
              /\ q' = <<>>
              /\ IF q[1] = 0 THEN got' = TRUE /\ cpc' = JoinOrRet ELSE UNCHANGED <<got, cpc>>
              /\ UNCHANGED <<stop, rpc, held, produced, gen, genClosed, fut, delivered, pings, closing>>
 
 \* push_future.exception(): returns once the thread is over; the producer's exception is re-raised
-ConsJoin == /\ UNCHANGED <<n, raiseAt>> /\ cpc = "join" /\ ThreadOver
+ConsJoin == /\ UNCHANGED <<n, raiseAt, cleanupRaises>> /\ cpc = "join" /\ ThreadOver
             /\ cpc' = "ret"
             /\ UNCHANGED <<q, stop, rpc, held, produced, gen, genClosed, fut, got, delivered, pings, closing>>
 
